@@ -72,6 +72,10 @@ class Bounds:
           k = self.min_timepoints()
           if k is not None:
             return (k, False)
+        if re.fullmatch(r'(self\.x|self\._x)', t) and f.cls is not None and f.cls.name == 'TBRMMDiagnostics' and self.x_same_length():
+          k = self.min_timepoints()
+          if k is not None:
+            return (k, False)
         return (0, False)
       if fn == 'max':
         bs = [self.lb(f, a, at, depth - 1, nonempty) for a in e.args]
@@ -208,6 +212,20 @@ class Bounds:
     if any(b is None for b in bs):
       return None
     return min(bs, key=lambda b: (b[0], b[1]))
+
+  def x_same_length(self):
+    """The x setter stores a non-None series only after rejecting len(x) != len(self._y)."""
+    cls = self.repo.cls('tbrmmdiagnostics.TBRMMDiagnostics')
+    st = cls.setters.get('x')
+    if st is None:
+      return False
+    ctx = FuncCtx.of(st)
+    for n in ctx.g.nodes:
+      if n.kind == 'test' and norm(n.expr) in ('len(x) != len(self._y)', 'len(self._y) != len(x)', 'len(x) != len(self.y)'):
+        tb = [m for m, lab in ctx.g.succ[n] if lab == 'true']
+        if tb and ctx.g.exit not in ctx.g.reachable(tb[0], cfgmod.no_exc):
+          return True
+    return False
 
   def min_timepoints(self):
     """len(y) >= _min_timepoints is enforced by the y setter (guard dominates the store)."""
@@ -368,8 +386,7 @@ def r1_lists(rep, closure, T):
             continue
           exp = ctx.rd.expand(node, target)[0]
           # only containers that may be empty: list(<iterable>), sorted(...), comprehension results, [] literals grown in loops
-          is_listy = isinstance(exp, (ast.ListComp, ast.List)) or (
-              isinstance(exp, ast.Call) and isinstance(exp.func, ast.Name) and exp.func.id in ('list', 'sorted', 'tuple'))
+          is_listy = _maybe_empty_sequence(T, f, node, exp)
           if not is_listy:
             continue
           n += 1
@@ -388,6 +405,32 @@ def r1_lists(rep, closure, T):
                     '%s%s is evaluated on a list that can be empty (%s) with no dominating emptiness guard: IndexError escapes'
                     % (norm(target)[:60], what, norm(exp)[:80]), f.loc(sub))
   rep.extra['list_pop_index_sites'] = n
+
+
+def _maybe_empty_sequence(T, f, node, exp):
+  """Sequences whose emptiness depends on the input: list literals grown elsewhere, filtered comprehensions,
+  and list/sorted/tuple of a range, of a repo function returning a range / generator, or of a set."""
+  if isinstance(exp, ast.List):
+    return True
+  if isinstance(exp, ast.ListComp):
+    return True
+  if isinstance(exp, ast.Call) and isinstance(exp.func, ast.Name) and exp.func.id in ('list', 'sorted', 'tuple') and len(exp.args) == 1:
+    a = exp.args[0]
+    if isinstance(a, (ast.ListComp, ast.GeneratorExp, ast.SetComp, ast.Set)):
+      return True
+    if isinstance(a, ast.Call):
+      if isinstance(a.func, ast.Name) and a.func.id in ('range', 'set', 'filter', 'sorted', 'list'):
+        return True
+      t = T.callee(f, a, node)
+      if t and t[0] == 'func':
+        g = t[1]
+        txt = norm(g.node)
+        return 'yield' in txt or 'range(' in txt or 'return [' in txt or 'return set' in txt
+      return False
+    if isinstance(a, ast.BinOp) and isinstance(a.op, (ast.BitAnd, ast.BitOr, ast.Sub, ast.BitXor)):
+      return True
+    return False
+  return False
 
 
 def _contains(root, node):
